@@ -243,7 +243,8 @@ Proof.
   intros r Hfl Hs Hd Hsl Hdl Hok Hlen.
   unfold wf_l4. cbn [mkip di_proto di_payload]. change (6 =? 6) with true. cbv iota.
   subst r. rewrite dec_tcp_segment by exact Hfl.
-  cbn [dt_doff dt_flags dt_window]. change (5 =? 5) with true.
+  cbn [dt_doff dt_flags dt_window]. unfold tcp_opts.
+  change (N.to_nat 5 * 4 - 20)%nat with 0%nat. cbn [firstn length opts_wf].
   change (65535 =? 0) with false. cbn [negb andb].
   assert ((if fl =? 18 then true else true) = true) as -> by (destruct (fl =? 18); reflexivity).
   rewrite andb_true_r.
